@@ -118,11 +118,17 @@ def live_in(tree, pool):
         # (no read in the initial state: a result memoised at the FIRST read and never refreshed would be right again once the
         # tree is back in this state — all reads happen in the perturbed states, the check is the first reader of the final one)
         nodes = list(tree)
-        # 1. a temporary node, added and removed again
+        # 1. a temporary node, added and removed again (below a node that HAS children, and as the only child of a leaf that
+        #    is then removed with keep_children=True: the former leaf must be a leaf again)
         host = nodes[len(nodes) // 2] if nodes else tree
         tmp = host.add("TMP-lived-in", before=True, **({"kind": "tmp-kind"} if typed else {}))
         read_battery(tree)
         tmp.remove()
+        leaf_hosts = [n for n in nodes if not n.children]
+        if leaf_hosts:
+            tmp = leaf_hosts[-1].add("TMP-lived-in-2", **({"kind": "tmp-kind"} if typed else {}))
+            read_battery(tree)
+            tmp.remove(keep_children=True)
         # 2. every child list reversed, read, and put back in order
         parents = [tree.system_root] + [n for n in nodes if n.children]
         for p in parents:
@@ -163,7 +169,8 @@ def live_in(tree, pool):
 def fresh_kind(k):
     """the kind a built node gets: an own str object per node.  CPython shares one-character strings, so the one-letter kinds
     of the generators become two characters long ("a" -> "a_"); equal kinds are then equal but not identical objects"""
-    k = k or "child"
+    if k is None:
+        k = "child"
     if len(k) == 1:
         k = k + "_"
     return "".join(list(k))
